@@ -337,8 +337,10 @@ func (c *V1) Do(op Op) (out Outcome) {
 		for _, ch := range op.Chg {
 			u := &v1ddb.GlobalSecondaryIndexUpdate{}
 			if ch.Create != nil {
-				ad.add(ch.Create.Hash, ch.Create.HashT)
-				ad.add(ch.Create.Range, ch.Create.RangeT)
+				if !op.NoDefs {
+					ad.add(ch.Create.Hash, ch.Create.HashT)
+					ad.add(ch.Create.Range, ch.Create.RangeT)
+				}
 				u.Create = &v1ddb.CreateGlobalSecondaryIndexAction{IndexName: aws.String(ch.Create.Name),
 					KeySchema:  v1KeySchema(ch.Create.Hash, ch.Create.Range),
 					Projection: &v1ddb.Projection{ProjectionType: aws.String("ALL")}, ProvisionedThroughput: v1Throughput()}
@@ -350,6 +352,9 @@ func (c *V1) Do(op Op) (out Outcome) {
 				u.Update = &v1ddb.UpdateGlobalSecondaryIndexAction{IndexName: aws.String(ch.Update), ProvisionedThroughput: v1Throughput()}
 			}
 			in.GlobalSecondaryIndexUpdates = append(in.GlobalSecondaryIndexUpdates, u)
+		}
+		for _, d := range op.Defs {
+			ad.add(d[0], d[1])
 		}
 		for _, n := range ad.order {
 			in.AttributeDefinitions = append(in.AttributeDefinitions, &v1ddb.AttributeDefinition{AttributeName: aws.String(n), AttributeType: aws.String(ad.typ[n])})
